@@ -6,7 +6,7 @@ from vf.core import call, exc_desc
 from vf.lazy import ck, libx, common
 
 PROP = "C17"
-TECHNIQUE = ('runtime monitoring of == on pairs generated with their ground truth (hash-colliding members, hash-twin ints, delimiters in names, multiplicities), symmetry / reflexivity, compare-mutate-compare histories; empty-bucket pairs; comparison again after a refused mutation and after non-mutating use; pairs of 63-1025 elements; pairs with recombined places (every element keeps its multiset of places, the rankings differ)')
+TECHNIQUE = ('runtime monitoring of == on pairs generated with their ground truth (hash-colliding members, hash-twin ints, delimiters in names, multiplicities), symmetry / reflexivity, compare-mutate-compare histories; empty-bucket pairs; comparison again after a refused mutation and after non-mutating use; pairs of 63-1025 elements; pairs with recombined places (every element keeps its multiset of places, the rankings differ); one operand an instance of a sub-class of Dataset')
 RULE = ("pairs generated WITH their ground truth: from a raw dataset A, B is derived by permuting the rankings, re-inserting "
         "bucket members in another order (members that collide in small hash tables, so that set iteration order really "
         "differs: verified on the library objects), renaming the dataset, duplicating / dropping one ranking, moving one "
